@@ -481,6 +481,12 @@ def verify(path, model, out, log, step, absent=None, deep=True):
         except Exception as e:   # noqa
             out.violate("V1-readable", "states", {"step": step, "type": type(e).__name__, "msg": str(e)})
             return False
+        if listed_states != set(k[0] for k in model.vars):
+            # also: no state without any acknowledged variable (the empty shell of a failed add_variable)
+            out.violate("V1-acknowledged-durable" if set(k[0] for k in model.vars) - listed_states else "V2-failed-leaves-nothing",
+                        "state-list", {"step": step, "states_in_file": sorted(listed_states),
+                                       "states_in_model": sorted(set(k[0] for k in model.vars))})
+            return False
         if not set(k[0] for k in model.vars) <= listed_states:
             out.violate("V1-acknowledged-durable", "variable-list", {"step": step, "states_in_file": sorted(listed_states),
                                                                      "states_in_model": sorted(set(k[0] for k in model.vars))})
@@ -498,6 +504,9 @@ def verify(path, model, out, log, step, absent=None, deep=True):
                 grp = vg[state][g]
                 names = sorted(grp.keys())
                 want = sorted(v for (s, gg, v) in model.vars if s == state and gg == g)
+                if not want:
+                    out.violate("V2-failed-leaves-nothing", "state-list", {"step": step, "state": state, "empty_geometry_group": g})
+                    return False
                 if names != want:
                     out.violate("V1-acknowledged-durable" if set(want) - set(names) else "V2-failed-leaves-nothing",
                                 "variable-list", {"step": step, "state": state, "geometry": g, "file": names, "model": want})
